@@ -302,3 +302,56 @@ func verifC13PerConsumer() {
 	}
 	verifrt.Reach("two-channels-with-consumers", len(s.Topics[0].Channels) == 2)
 }
+
+// The ledger also holds for the LARGEST legal message on a disk-backed channel (mem-queue-size 0:
+// whatever goes back to the queue goes to the channel's disk queue, opened by the real NewChannel
+// with its record limits): published, or held and then requeued with REQ 0, or held and timed
+// out, or deferred and come due - the message is afterwards still counted in the channel's depth
+// (a record the disk queue refuses is only logged: the message would have left every counter
+// while message_count still includes it).
+func VerifC13_MaxSizeMessageStaysInTheLedger() { verifrt.Atomic(verifC13MaxSize) }
+
+func verifC13MaxSize() {
+	o := verifOpts()
+	o.MemQueueSize = 0
+	o.MaxMsgSize = int64(verifrt.Bound("max-msg-size", 3, 6))
+	n := verifShellNSQD(o)
+	verifrt.StubNative("(*github.com/nsqio/nsq/nsqd.NSQD).Notify", verifNotifyNop)
+	c := NewChannel("t", "c", n, nil)
+	body := verifrt.Bytes("body", int(o.MaxMsgSize))
+	verifrt.Assume(len(body) >= 1)
+	verifConcreteIDs, verifIDSeq = true, 0
+	m := verifMsg("m", 1)
+	m.Body = body
+	path := verifrt.Choice("path", 4)
+	var err error
+	switch path {
+	case 0:
+		err = c.PutMessage(m)
+	case 1: // held by a consumer, then REQ 0
+		c.messageCount = 1
+		verifrt.Assert(c.StartInFlightTimeout(m, 7, time.Minute) == nil, "in-flight-registered")
+		err = c.RequeueMessage(7, m.ID, 0)
+	case 2: // held, then timed out by the scan
+		c.messageCount = 1
+		verifrt.Assert(c.StartInFlightTimeout(m, 7, time.Minute) == nil, "in-flight-registered")
+		verifrt.Assert(c.processInFlightQueue(m.pri+1), "scan-times-the-message-out")
+	case 3: // deferred, then due
+		c.messageCount = 1
+		c.StartDeferredTimeout(m, time.Minute)
+		var due int64
+		for _, it := range c.deferredMessages {
+			due = it.Priority
+		}
+		verifrt.Assert(c.processDeferredQueue(due+1), "scan-finds-the-deferred-message-due")
+	}
+	verifrt.Assert(err == nil, "max-size-message-goes-back-to-the-queue")
+	present := uint64(c.Depth()) + uint64(len(c.inFlightMessages)) + uint64(len(c.deferredMessages))
+	verifrt.Assert(c.messageCount == 1 && present == 1, "max-size-message-is-still-in-the-ledger")
+	verifrt.Assert(c.Depth() == 1, "max-size-message-is-counted-in-the-disk-depth")
+	verifrt.Reach("largest-body-requeued-to-disk", path == 1 && len(body) == int(o.MaxMsgSize))
+	verifrt.Reach("largest-body-timed-out-to-disk", path == 2 && len(body) == int(o.MaxMsgSize))
+	if !verifrt.Symbolic() {
+		c.Close()
+	}
+}
